@@ -325,6 +325,8 @@ class CallMixin:
                 o = st.obj(v.ref)
                 if p in c.final:
                     pass
+                elif ("havoc-heap", o.kind) in self.reg.ext_models:      # pack-defined heap kinds (additive hook, C02)
+                    self.reg.ext_models[("havoc-heap", o.kind)](self, st, v.ref)
                 elif o.kind in ("list", "bytearray") and o.data is not None:
                     w = st.wobj(v.ref)
                     w.data = [self.havoc_like(st, x, p) for x in o.data]
